@@ -5,7 +5,7 @@ from engines import array as A
 DIR = "Array"
 MODELS = ["Array/ArrayModel.vo"]
 DRIVER = "d_array.ml"
-SKIP = re.compile(r"\b(contains_value|copy_deep|destroy_cb)\b|kind=stack|\bs\d\b")
+SKIP = re.compile(r"\b(contains_value|destroy_cb)\b|kind=stack|\bs\d\b")
 
 def generate(rng, tier, mode="default"):
     out = []
@@ -23,7 +23,7 @@ def generate(rng, tier, mode="default"):
         ok = True
         lines = []
         for l in t[1:]:
-            toks = l.split()
+            toks = l.replace("copy_deep", "copy_shallow").split()      # CC_ArraySized has one copy function
             # element arguments must fit the element size; index arguments are left alone
             if len(toks) >= 3 and toks[1] in ("add", "add_at", "replace_at", "remove", "index_of", "contains", "replace") or \
                (len(toks) >= 3 and toks[0][0] in "iz" and toks[1] in ("add", "replace")):
@@ -37,7 +37,8 @@ def generate(rng, tier, mode="default"):
         h.insert(3, "esz=%d" % esz)
         out.append([" ".join(h)] + lines)
     if tier == "quick":
-        rng.shuffle(out); out = out[:6000]
+        rng.shuffle(out)
+        out = [t for t in out if " default" in t[0]] + [t for t in out if " default" not in t[0]][:6000]
     # capacities around SIZE_MAX / element_size: the constructor refuses what the array model (8-byte slots) refuses
     # only when esz = 8, so these traces use esz=8; for the other sizes see big() in the harness notes
     for cap in (2**61 - 1, 2**61, 2**61 + 1, 2**62, 2**63, 2**64 - 3, 2**64 - 1):
